@@ -21,6 +21,9 @@ pub struct C15;
 enum Item {
     Impulse { len: usize, f32t: bool, window: WindowFunction },
     Dispatch { f32t: bool },
+    /// the guarded windows again in an unoptimised build of the library (a load whose value is
+    /// never used is removed by the optimiser, and the out-of-window access with it)
+    GuardPlain,
 }
 
 fn lens(tier: Tier) -> Vec<usize> {
@@ -49,6 +52,7 @@ fn items(tier: Tier) -> Vec<Item> {
         }
         v.push(Item::Dispatch { f32t });
     }
+    v.push(Item::GuardPlain);
     v
 }
 
@@ -58,6 +62,124 @@ struct Acc {
     found: Vec<Value>,
     outcomes: std::collections::BTreeSet<String>,
     worst_ulps: f64,
+}
+
+extern "C" {
+    fn mmap(addr: *mut u8, len: usize, prot: i32, flags: i32, fd: i32, off: i64) -> *mut u8;
+    fn mprotect(addr: *mut u8, len: usize, prot: i32) -> i32;
+    fn munmap(addr: *mut u8, len: usize) -> i32;
+}
+
+/// `n` elements of T in anonymous memory, placed so that the last element ends exactly at an
+/// inaccessible page (`at_end`) or the first one starts exactly after one.
+struct Guarded<T> {
+    base: *mut u8,
+    bytes: usize,
+    data: *mut T,
+    n: usize,
+}
+
+impl<T> Guarded<T> {
+    fn new(n: usize, at_end: bool) -> Option<Self> {
+        const PAGE: usize = 4096;
+        let need = n * std::mem::size_of::<T>();
+        let pages = (need + PAGE - 1) / PAGE;
+        let bytes = (pages + 2) * PAGE;
+        // PROT_READ|PROT_WRITE = 3, MAP_PRIVATE|MAP_ANONYMOUS = 0x22 (Linux)
+        let base = unsafe { mmap(std::ptr::null_mut(), bytes, 3, 0x22, -1, 0) };
+        if base.is_null() || base as isize == -1 {
+            return None;
+        }
+        unsafe {
+            if mprotect(base, PAGE, 0) != 0 || mprotect(base.add((pages + 1) * PAGE), PAGE, 0) != 0 {
+                return None;
+            }
+        }
+        let data = if at_end { unsafe { base.add((pages + 1) * PAGE - need) } } else { unsafe { base.add(PAGE) } } as *mut T;
+        Some(Guarded { base, bytes, data, n })
+    }
+    #[allow(clippy::mut_from_ref)]
+    fn slice(&self) -> &mut [T] {
+        unsafe { std::slice::from_raw_parts_mut(self.data, self.n) }
+    }
+}
+
+impl<T> Drop for Guarded<T> {
+    fn drop(&mut self) {
+        unsafe {
+            munmap(self.base, self.bytes);
+        }
+    }
+}
+
+/// The guarded-window walk for one sample type; prints one line before every kernel call so
+/// that the parent knows where a faulting child was (`hx c15guard`).
+fn guard_walk<T: Flt>(count: &mut u64) -> Result<(), String> {
+    use std::io::Write;
+    let out = std::io::stdout();
+    for len in [8usize, 16, 64, 72, 256, 1024] {
+        for os in [1usize, 2, 256] {
+            let scalar = ScalarInterpolator::<T>::new(len, os, 0.93, WindowFunction::BlackmanHarris2);
+            let sse = SseInterpolator::<T>::new(len, os, 0.93, WindowFunction::BlackmanHarris2).map_err(|e| e.to_string())?;
+            let avx = AvxInterpolator::<T>::new(len, os, 0.93, WindowFunction::BlackmanHarris2).map_err(|e| e.to_string())?;
+            let kernels: [(&str, &dyn SincInterpolator<T>); 3] = [("scalar", &scalar), ("sse", &sse), ("avx", &avx)];
+            for sub in [0usize, os - 1] {
+                for back in 0..8usize {
+                    for at_end in [true, false] {
+                        let total = len + 1 + back;
+                        let g = Guarded::<T>::new(total, at_end).ok_or("mmap failed")?;
+                        for i in 0..total {
+                            g.slice()[i] = T::from64(if i == back + len / 2 { 1.0 } else { 0.25 });
+                        }
+                        let start = if at_end { total - len - 1 } else { 0 };
+                        for (name, k) in kernels.iter() {
+                            {
+                                let mut o = out.lock();
+                                let _ = writeln!(o, "AT {} kernel {} len {} oversampling {} subindex {} start {} of {} samples, slice {}", T::NAME, name, len, os, sub, start, total, if at_end { "ends at an inaccessible page" } else { "starts after an inaccessible page" });
+                                let _ = o.flush();
+                            }
+                            let v = k.get_sinc_interpolated(g.slice(), start, sub);
+                            std::hint::black_box(v);
+                            *count += 1;
+                        }
+                    }
+                }
+            }
+        }
+    }
+    Ok(())
+}
+
+/// `hx c15guard`: run in the unoptimised build.
+pub fn guard_main() -> i32 {
+    let mut n = 0u64;
+    if let Err(e) = guard_walk::<f64>(&mut n).and_then(|_| guard_walk::<f32>(&mut n)) {
+        eprintln!("{}", e);
+        return 2;
+    }
+    println!("DONE {}", n);
+    0
+}
+
+fn guard_plain(acc: &mut Acc) -> Result<(), String> {
+    let bin = std::env::var("HX_PLAIN_BIN").map_err(|_| "HX_PLAIN_BIN is not set (the unoptimised build of the harness; ./check builds it)".to_string())?;
+    let out = std::process::Command::new(&bin).arg("c15guard").output().map_err(|e| format!("{}: {}", bin, e))?;
+    let text = String::from_utf8_lossy(&out.stdout);
+    let last = text.lines().rev().find(|l| l.starts_with("AT ") || l.starts_with("DONE ")).unwrap_or("").to_string();
+    if out.status.success() {
+        let n: u64 = last.strip_prefix("DONE ").and_then(|x| x.trim().parse().ok()).ok_or("c15guard: no DONE line")?;
+        acc.evals += n;
+        acc.nontrivial += n;
+        acc.outcomes.insert("guard-plain:clean".into());
+        return Ok(());
+    }
+    use std::os::unix::process::ExitStatusExt;
+    if out.status.signal().is_some() && last.starts_with("AT ") {
+        acc.outcomes.insert("guard-plain:FAULT".into());
+        fail(acc, "touches-memory-outside-the-window", format!("unoptimised build: the process died ({}) in this call: {}", out.status, &last[3..]), "guarded windows, unoptimised build".to_string());
+        return Ok(());
+    }
+    Err(format!("c15guard failed ({}): {}", out.status, String::from_utf8_lossy(&out.stderr)))
 }
 
 fn fail(acc: &mut Acc, sig: &str, detail: String, point: String) {
@@ -163,10 +285,42 @@ fn impulses<T: Flt>(acc: &mut Acc, tier: Tier, len: usize, window: WindowFunctio
                     }
                 }
             }
+            // memory behaviour: the window placed so that it ends exactly at (or starts exactly
+            // after) an inaccessible page - a kernel that touches anything outside
+            // [index, index + len) of the slice it was given faults, whether or not the value
+            // it loads is used
+            if sub == subs[0] || sub == *subs.last().unwrap() {
+                for back in 0..8usize {
+                    for at_end in [true, false] {
+                        let total = len + 1 + back;
+                        let g = Guarded::<T>::new(total, at_end).ok_or("mmap failed")?;
+                        for i in 0..total {
+                            g.slice()[i] = T::from64(if i == back + len / 2 { 1.0 } else { 0.0 });
+                        }
+                        // at_end: the slice ends at the guard page, start index = the last legal
+                        // one minus (7 - back)...; else: the slice starts right after a guard page
+                        let start = if at_end { total - len - 1 } else { 0 };
+                        if let Some(j) = journal {
+                            j.write(&json!({"len": len, "os": os, "T": T::NAME}), &format!("guarded window sub {} start {} of {} ({})", sub, start, total, if at_end { "ends at an inaccessible page" } else { "starts after an inaccessible page" }));
+                        }
+                        let vals: Vec<T> = kernels.iter().map(|(_, k)| k.get_sinc_interpolated(g.slice(), start, sub)).collect();
+                        acc.evals += 1;
+                        acc.nontrivial += 1;
+                        for (i, (name, _)) in kernels.iter().enumerate().skip(1) {
+                            if !(vals[i] == vals[0]) {
+                                fail(acc, &format!("impulse:{}!=scalar", name),
+                                    format!("{} len {} os {} sub {}: guarded window, start {}: {} returns {:?}, scalar {:?}", T::NAME, len, os, sub, start, name, vals[i], vals[0]),
+                                    format!("impulse T={} len={} os={} window={}", T::NAME, len, os, window_name(window)));
+                            }
+                        }
+                    }
+                }
+            }
             acc.outcomes.insert(format!("{}:len{}:os{}", T::NAME, len, os));
             // rounding half: hard waveforms
             let total = 8 + len + 9;
-            let big = if T::IS_F32 { 1e18 } else { 1e150 };
+            // (sums of up to 2048 such products stay finite: 2048 * 1e30 < f32::MAX)
+            let big = if T::IS_F32 { 1e30 } else { 1e250 };
             let tiny = if T::IS_F32 { 1e-40 } else { 1e-310 };
             let waves: Vec<(&str, Box<dyn Fn(usize) -> f64>)> = vec![
                 ("ones", Box::new(|_| 1.0)),
@@ -293,6 +447,10 @@ impl Check for C15 {
                 } else {
                     impulses::<f64>(&mut acc, tier, len, window, journal)?
                 }
+            }
+            Item::GuardPlain => {
+                label = "guarded windows, unoptimised build".to_string();
+                guard_plain(&mut acc)?;
             }
             Item::Dispatch { f32t } => {
                 label = format!("dispatch {}", if f32t { "f32" } else { "f64" });
